@@ -10,6 +10,9 @@ CONSTANTS
   NEndpoints = 8
   Kinds = {"echo"}
   NOptions = 1
+  Statuses = {204}
+  PlainShare = 0
+  NForwarding = 2
   UnderscoreNames = FALSE
 INVARIANT GeneratedAreWellFormed
 INVARIANT EncodingsAgree
